@@ -93,7 +93,7 @@ def cases(draw, tier="quick"):
         used.add(p)
         dirs.append(p)
         nodes.append(dict(path=p, type="dir", mode=0o755, uid=0, gid=0, mtime=0, xattrs={}))
-    nfiles = draw(st.integers(2, 9))
+    nfiles = draw(st.sampled_from([0, 1, 2, 2, 3, 3, 4, 5, 6, 7, 8, 9]))      # 0: a sort file with nothing to sort
     seed = 100
     files = []
     for i in range(nfiles):
